@@ -169,6 +169,11 @@ pub enum Node {
 
 pub type Snapshot = BTreeMap<String, Node>;
 
+thread_local! {
+    /// problems of the workload generator (not of the tool): reported as harness errors
+    pub static GENERATOR_ERRORS: std::cell::RefCell<Vec<String>> = const { std::cell::RefCell::new(Vec::new()) };
+}
+
 #[derive(Clone, Debug)]
 pub struct World {
     pub root: PathBuf,
@@ -237,6 +242,12 @@ impl World {
         let src = st.join("src");
         fs::create_dir_all(&src).unwrap();
         let rendered = m.render();
+        // guard against the workload generator itself: what it renders must be Rust
+        for (p, text) in &rendered {
+            if let Err(e) = syn::parse_file(text) {
+                GENERATOR_ERRORS.with(|g| g.borrow_mut().push(format!("rendered {} does not parse: {}", p, e)));
+            }
+        }
         // delete .rs files that are not part of the model (extras are never .rs under src/ except the ones tests add explicitly afterwards)
         let mut existing: Vec<PathBuf> = vec![];
         collect_rs(&src, &mut existing);
